@@ -36,6 +36,9 @@ type Action struct {
 	// Stop, when set and returning true, ends the script before this action (and a RepeatFor stream in progress)
 	Stop  func() bool
 	Reset bool // TCP: reset the connection (SO_LINGER 0)
+	// Hold (TCP): after this action the endpoint keeps the connection open for this long WITHOUT reading from it or reacting to
+	// the peer's FIN (a controller that is slow to close, a middlebox that holds half-closed connections), then closes it
+	Hold time.Duration
 }
 
 type UDP struct {
@@ -302,6 +305,10 @@ func (e *TCP) PlayTCP(r Received, actions []Action) {
 			return
 		}
 		if a.Close {
+			return
+		}
+		if a.Hold > 0 {
+			sleepOrClosed(e.closed, a.Hold)
 			return
 		}
 	}
